@@ -122,9 +122,15 @@ def run_list(spec, sigs, ov, others=()):
 
 def case_order(seed, idx, res):
     rng = random.Random(f"c20-{seed}-ord-{idx}")
-    kinds = ["xor_add", "mul", "storage", "storage2", "disarm", "disarm", "warp_writer", "warp_writer", "time_guard", "time_guard", "two_args", "unsat", "conj3", "bytes_len", "arr_sum", "loop_guard", "nested_assert", "exp"]
+    kinds = ["xor_add", "mul", "storage", "storage2", "disarm", "disarm", "warp_writer", "warp_writer", "time_guard", "time_guard", "two_args", "unsat", "conj3", "bytes_len", "arr_sum", "loop_guard", "nested_assert", "exp", "lit_slot", "hash_touch"]
     spec, setup, tests = testgen.gen_contract(rng, 4, kinds=kinds, symbolic_setup=rng.random() < 0.3)
-    if rng.random() < 0.5:
+    k0 = rng.random()
+    if k0 < 0.25:
+        # a test that hashes a preimage at run time precedes (in some order) a test that addresses the same slot by the hash constant
+        tests[0] = testgen.gen_test(rng, 0, kinds=["hash_touch"])
+        tests[1] = testgen.gen_test(rng, 1, kinds=["lit_slot"])
+        spec = A.ContractSpec("T", [setup] + [t.fn for t in tests] + [t.helper for t in tests if hasattr(t, "helper")])
+    elif k0 < 0.6:
         # make sure a writer precedes a reader of the same piece of state in some order
         tests[0] = testgen.gen_test(rng, 0, kinds=["disarm", "warp_writer"])
         tests[1] = testgen.gen_test(rng, 1, kinds=["storage2", "time_guard"] if tests[0].kind == "disarm" else ["time_guard"])
@@ -250,7 +256,20 @@ def case_invariant_order(seed, idx, res):
 def case_siblings(seed, idx, res):
     """every yielded path, re-executed alone with a model of the path as concrete input"""
     rng = random.Random(f"c20-{seed}-sib-{idx}")
-    kind = rng.choice(["single", "single", "calls", "creates", "concretize"])
+    kind = rng.choice(["single", "single", "calls", "creates", "concretize", "twofail"])
+    if kind == "twofail":
+        # a callee that fails on two (or three) different paths, a caller that swallows the failure and then counts in persistent and transient
+        # storage: every failing path must resume the caller on its own copy of the pre-call state
+        from asm import asm
+
+        callee = [4, "CALLDATALOAD", 1, "AND", "@a", "JUMPI", 4, "CALLDATALOAD", 2, "AND", "@b", "JUMPI", 36, "CALLDATALOAD", 7, "EQ", "@c", "JUMPI", 1, 0, "SSTORE", "STOP",
+                  ":a", 0, 0, "REVERT", ":b", "INVALID", ":c", 0x11, 0, "MSTORE", 32, 0, "REVERT"]
+        op = rng.choice(["CALL", "CALL", "DELEGATECALL"])
+        root = [100, 0, 0x300, "CALLDATACOPY", 0, 0, 100, 0x300] + ([0] if op == "CALL" else []) + [0x1100, 0xFFFF, op, 0x200, "MSTORE",
+                rng.choice([0, 3]), "SLOAD", 1, "ADD", "DUP1", rng.choice([0, 3]), "SSTORE", 0x220, "MSTORE", 1, "TLOAD", 1, "ADD", "DUP1", 1, "TSTORE", 0x240, "MSTORE", 0x60, 0x200, "RETURN"]
+        case = diffcore.Case({0x1000: asm(root), 0x1100: asm(callee)}, ncd=2, label="twofail")
+        res["counters"]["callee_with_several_failing_paths_programs"] += 1
+        kind = "custom"
     if kind == "concretize":
         # a symbolic word becomes usable as a memory offset / return size only on the path that equated it with a constant;
         # sibling paths must not inherit that knowledge
@@ -271,7 +290,7 @@ def case_siblings(seed, idx, res):
                            ":eq", 4, "CALLDATALOAD", "MLOAD", 0x200, "MSTORE", 32, 0x200, "RETURN"]
         case = diffcore.Case({0x1000: asm(toks)}, ncd=2, label="concretize")
         res["counters"]["concretization_programs"] += 1
-    else:
+    elif kind != "custom":
         case = workloads.make_case(kind, rng)
     r = symrun.run_symbolic(case.contracts, target=case.target, ncd=case.ncd)
     if r.crash or r.budget_exceeded or len(r.paths) < 2:
